@@ -154,4 +154,18 @@ theorem seek_live_view (w : World) (hok : w.view.ok) (id off : Nat) (m : Mode) (
   · rfl
   · exact setHandle_view _ hok hd _ hmem rfl rfl
 
+theorem seekCur_live_view (w : World) (hok : w.view.ok) (id : Nat) (off : Int) (m : Mode) (h : (id, m) ∈ w.view.handles) :
+    (seekCur id off w).2.view = w.view := by
+  obtain ⟨hd, hf, hmem, hid, hmode⟩ := findHandle_of_view w hok id m h
+  unfold seekCur
+  simp only [tick]
+  have hf' : findHandle { w with counts := w.counts.bump Kind.seek } id = some hd := hf
+  rw [hf']
+  simp only
+  split
+  · rfl
+  · split
+    · rfl
+    · exact setHandle_view _ hok hd _ hmem rfl rfl
+
 end MsPack.Sys
